@@ -30,7 +30,7 @@ ASSUMPTIONS = [
 ]
 ALPHA = (0x00, 0x61, 0x62)
 BOUNDS = {
-    "quick": {"haystack_len": 5, "needle_len": 3, "buffers": [1, 2, 3, 4, 8192], "artifact_len": 6},
+    "quick": {"haystack_len": 6, "needle_len": 3, "buffers": [1, 2, 3, 4, 5, 8192], "artifact_len": 7},
     "thorough": {"haystack_len": 8, "needle_len": 4, "buffers": [1, 2, 3, 4, 5, 6, 7, 8192], "artifact_len": 8},
 }
 AK_ALPHA = (0x00, 0x10, 0x11, 0x14, 0xFF)
